@@ -309,3 +309,27 @@ func (t *Term) Contains(sub *Term) bool {
 	})
 	return found
 }
+
+// Args0Int returns the integer value of the first argument if it is a constant.
+func (t *Term) Args0Int() (int64, bool) {
+	if len(t.Args) == 0 {
+		return 0, false
+	}
+	return t.Args[0].Int64()
+}
+
+// Args1Int returns the integer value of the second argument if it is a constant.
+func (t *Term) Args1Int() (int64, bool) {
+	if len(t.Args) < 2 {
+		return 0, false
+	}
+	return t.Args[1].Int64()
+}
+
+// ArgN returns argument i or nil.
+func (t *Term) ArgN(i int) *Term {
+	if i < len(t.Args) {
+		return t.Args[i]
+	}
+	return nil
+}
